@@ -7,6 +7,8 @@ NOTE = ("verdicts are z3 4.8.12 / z3 5.1.0 / cvc5 1.0 answers over the symgo SSA
         "every bound (lengths, unwinding, allocation, shapes) is listed per obligation in the evidence and checked, not assumed; "
         "translator validated per run by replaying reachability witnesses natively and in concrete mode; ")
 CLAIMED = {
+ "C18": ("the permission decision kernel: getDBFromCtx, HasPermissionForMethod, IsMaintenanceMethod and User.WhichPermission executed for every method name of the permission table crossed with every option combination, database selection, sysadmin flag and every 32-bit permission code: a database is handed out only when the reviewed classification allows it",
+         "session/token validation is a stub returning a symbolic (database, user) or an error; which name each RPC handler passes to the kernel, session lifecycle and the pgsql front-end are outside the claim; the classification table in the harness is the oracle", "DESIGN.md §4 C18"),
  "C07": ("export/replicate framing: ReplicateTx(ExportTx(tx)) hands precommit the same header and entry list for every symbolic transaction within the size bounds (headers v0/v1, all metadata combinations, values present or truncated)",
          "tx reader / value reader and the write-only transaction are harness stubs; replica-side validation, ack allowance, delivery schedules and the replicator are outside the claim for now", "DESIGN.md §4 C07"),
  "C17": ("the multi-file appendable refines one growable byte array over bounded sequences of append / set-offset / read / discard with symbolic payloads, lengths and offsets, for every chunk-boundary alignment and cache (max-open-files) size within the bounds",
